@@ -105,7 +105,7 @@ def check(ctx: Ctx) -> str:
 
     ctx.rule("R3", "up-to-date checks: Template.is_up_to_date delegates to the loader's callable; loaders whose source can change return a callable that re-reads current state and fails closed")
     up = repo.func("environment:Template.is_up_to_date")
-    s = ast.unparse(up.node)
+    s = up.ntext
     ctx.check("self._uptodate is None" in s and "return self._uptodate()" in s, "Template.is_up_to_date", "environment:Template.is_up_to_date", "delegation", "is_up_to_date must return self._uptodate() when a callable was supplied", up.loc())
     fc = repo.func("environment:Template.from_code")
     ctx.check("rv._uptodate = uptodate" in ast.unparse(fc.node), "from_code:uptodate", "environment:Template.from_code", "uptodate stored", "from_code must keep the loader's uptodate callable", fc.loc())
